@@ -71,6 +71,27 @@ impl<'a> fmt::Display for Pieces<'a> {
     }
 }
 
+/// The same message, but while it is being rendered the thread logs something else through the same encoder into
+/// another sink (a Display implementation that logs - "reading the value" - before it answers): what the outer record
+/// renders is its own message, whole, whatever was rendered on the thread in between (Pattern.tla: Render is a
+/// function of pattern and record).
+pub struct NestingPieces<'a> {
+    pub pieces: &'a [String],
+    pub enc: &'a dyn Encode,
+}
+impl<'a> fmt::Display for NestingPieces<'a> {
+    fn fmt(&self, f: &mut fmt::Formatter<'_>) -> fmt::Result {
+        for (k, p) in self.pieces.iter().enumerate() {
+            f.write_str(p)?;
+            if k == 0 {
+                let mut other = Cap::new(vec![]);
+                let _ = self.enc.encode(&mut other, &log::Record::builder().level(log::Level::Debug).target("nested").args(format_args!("reading the value")).build());
+            }
+        }
+        Ok(())
+    }
+}
+
 thread_local! {
     /// which representatives the placeholders stand for in the case at hand (a non-ASCII letter and a non-ASCII digit
     /// of 2 or 3 bytes each)
@@ -171,19 +192,19 @@ pub fn run_pattern(pattern: &str, rec: &RecSpec, accept: Vec<usize>, construct_o
         }
         let mut cap = Cap::new(accept);
         let msg = Pieces(&rec.msg);
+        // (every other pattern: the message's Display logs on the way)
+        let nesting = NestingPieces { pieces: &rec.msg, enc: enc.as_ref() };
+        let nest = pattern.len() % 2 == 0;
         let t0 = chrono::Utc::now();
         let r = catch(|| {
-            enc.encode(
-                &mut cap,
-                &log::Record::builder()
-                    .level(rec.level)
-                    .target(&rec.target)
-                    .module_path(rec.module.as_deref())
-                    .file(rec.file.as_deref())
-                    .line(rec.line)
-                    .args(format_args!("{}", msg))
-                    .build(),
-            )
+            let b = log::Record::builder();
+            let mut b = b;
+            b.level(rec.level).target(&rec.target).module_path(rec.module.as_deref()).file(rec.file.as_deref()).line(rec.line);
+            if nest {
+                enc.encode(&mut cap, &b.args(format_args!("{}", nesting)).build())
+            } else {
+                enc.encode(&mut cap, &b.args(format_args!("{}", msg)).build())
+            }
         });
         match r {
             Err(p) => Outcome::PanicEncode(p),
@@ -564,12 +585,49 @@ fn check_width(idx: usize, case: &Value) -> Option<Value> {
 }
 
 /// `width <cases.ndjson> <out.ndjson>`
+/// Beyond the enumeration bound (WidthWriters.tla has no largest width): minimum and maximum widths around 2^16 and
+/// 2^20 and at 2^21 + 1 - the field has exactly that many characters, the text at the right end; a text longer than
+/// the maximum is cut to exactly its first M characters.
+fn check_big_widths() -> Vec<Value> {
+    let mut out = vec![];
+    for w in [65_535usize, 65_536, 65_537, 1_048_575, 1_048_576, 1_048_577, 2_097_153] {
+        for (kind, pattern, msg) in [("min", format!("{{m:\u{e9}>{}}}", w), "ab".to_string()),
+                                     ("max", format!("{{m:.{}}}", w), "\u{4e16}".repeat(w + 3)),
+                                     ("group", format!("{{({{m}}|):>{}.{}}}", w, w + 1), "ab".to_string())] {
+            let enc = log4rs::encode::pattern::PatternEncoder::new(&pattern);
+            let mut cap = Cap::new(vec![]);
+            let r = catch(|| enc.encode(&mut cap, &log::Record::builder().level(log::Level::Info).args(format_args!("{}", msg)).build()));
+            let mut bytes = vec![];
+            for o in &cap.out {
+                if let Out::Bytes(b) = o {
+                    bytes.extend_from_slice(b);
+                }
+            }
+            let text = String::from_utf8_lossy(&bytes).to_string();
+            let chars = text.chars().count();
+            let ok = matches!(r, Ok(Ok(()))) && chars == w && match kind {
+                "min" => text.ends_with("ab") && text.starts_with('\u{e9}'),
+                "max" => text.chars().all(|c| c == '\u{4e16}'),
+                _ => text.ends_with("ab|"),
+            };
+            if !ok {
+                out.push(json!({"case": -1, "input": {"kind": kind, "width": w, "pattern": pattern},
+                                "mismatch": {"what": "width law far beyond the enumeration bound", "expected_characters": w, "actual_characters": chars,
+                                             "result": format!("{:?}", r.map(|x| x.map_err(|e| e.to_string()))), "tail": text.chars().rev().take(8).collect::<String>()}}));
+            }
+        }
+    }
+    out
+}
+
 pub fn main_width(args: &[String]) {
     quiet_panics();
     let rows = read_ndjson(&args[0]);
     let res = par_map(&rows, threads(), |i, c| {
         check_width(mix(i), c).into_iter().map(|m| json!({"case": i, "input": c, "mismatch": m})).collect()
     });
+    let mut res = res;
+    res.extend(check_big_widths());
     write_ndjson(&args[1], &res);
     println!("{}", json!({"cases": rows.len(), "mismatches": res.len()}));
 }
